@@ -30,6 +30,8 @@ def T_DS : Nat := 43
 def T_NSEC : Nat := 47
 def T_NSEC3 : Nat := 50
 def T_IXFR : Nat := 251
+def T_MAILB : Nat := 253
+def T_MAILA : Nat := 254
 def T_AXFR : Nat := 252
 def T_ANY : Nat := 255
 def T_ANAME : Nat := 65305
@@ -73,15 +75,16 @@ def dataEq (a b : Rec) : Bool :=
   a.rtype == b.rtype && RData.norm a.rtype a.rdata == RData.norm b.rtype b.rdata
 /-- `impl PartialEq for Record`: NAME (case-insensitive), CLASS, RDATA — TTL excluded. -/
 def eqv (a b : Rec) : Bool := Name.eq a.name b.name && a.cls == b.cls && a.dataEq b
-/-- `RData::Update0(_) | RData::NULL(..)` — what the update code accepts as "empty RDATA".
-The pattern is written out at four sites of sqlite/mod.rs; each has its own definition here so
-that the agreement between them is a theorem (`prescan_empty_eq_apply_empty`), not an artefact of
-the model: `isEmptyData` is the site in `update_records` ("delete an RRset"). -/
-def isEmptyData (r : Rec) : Bool := r.rdata == .empty || r.rtype == T_NULL
+/-- `RData::Update0(_)` — what the update code accepts as "empty RDATA" (RDLENGTH 0; since
+4a0d3cb a type-NULL record *with* data no longer counts).  The pattern is written out at four
+sites of sqlite/mod.rs; each has its own definition here so that the agreement between them is a
+theorem (`prescan_empty_eq_apply_empty`), not an artefact of the model: `isEmptyData` is the site
+in `update_records` ("delete an RRset"). -/
+def isEmptyData (r : Rec) : Bool := r.rdata == .empty
 /-- the site in `pre_scan` (class ANY) -/
-def isEmptyDataPrescan (r : Rec) : Bool := r.rdata == .empty || r.rtype == T_NULL
+def isEmptyDataPrescan (r : Rec) : Bool := r.rdata == .empty
 /-- the two sites in `verify_prerequisites` (class ANY, class NONE) -/
-def isEmptyDataPrereq (r : Rec) : Bool := r.rdata == .empty || r.rtype == T_NULL
+def isEmptyDataPrereq (r : Rec) : Bool := r.rdata == .empty
 end Rec
 
 /-- `impl Ord for RrKey` : name (`Name::cmp`, case-insensitive), then the type code. -/
